@@ -61,9 +61,9 @@ Definition number_to_str (bits:Z) (unit:option (list Z)) (len:Z) : buf * Z * boo
     match unit with
     | Some u =>
       let '(b2,o2) := strncat_ b1 (Z.to_nat r) [32] (len - r) in
-      let '(b3,o3) := if r + 2 <? len then strncat_ b2 (Z.to_nat r + 1) u (len - r - 1) else (b2,false) in
+      let '(b3,o3) := if r + 2 <? len then strncat_ b2 (Z.to_nat r + 1) u (len - r - 2) else (b2,false) in
       (* result = strlen(str) *)
-      let final := r + 1 + (if r + 2 <? len then Z.min (Z.of_nat (length u)) (len - r - 1) else 0) in
+      let final := r + 1 + (if r + 2 <? len then Z.min (Z.of_nat (length u)) (len - r - 2) else 0) in
       (b3, final, o1||o2||o3)
     | None => (b1, r, o1)
     end
